@@ -62,6 +62,16 @@ def build_deflate(reg):
             "not self._decompressor._tail_nonempty"],
         raises={"zlib.error": "True", "ValueError": "False"},
         known={}, spec_module="specs.ws")
+    # the same clauses re-posed outside the recorded finding's input class (see known_findings.json, except_when):
+    # any counterexample that is *not* "limit configured and exceeded" is a fresh violation
+    reg.contract(
+        DEFLATE + ".decompress_message_data", name=DEFLATE + ".decompress_message_data[outside-known-finding]",
+        props=["C16"], params={"self": "obj:PMDeflate", "data": "bytes"}, returns="bytes",
+        modifies=["self._decompressor._last_full", "self._decompressor._tail_nonempty"],
+        ensures=["implies(self.max_message_size is None or self.max_message_size == 0 or "
+                 "len(self._decompressor._last_full) <= self.max_message_size, "
+                 "result == self._decompressor._last_full and not self._decompressor._tail_nonempty)"],
+        raises={"zlib.error": "True", "ValueError": "False"}, spec_module="specs.ws")
 
 
 def replay_known(k):
